@@ -1,5 +1,11 @@
 (* Props/C09.v -- Mini-batching permutes the point set and serves each point once per epoch.
-   Only statements, `exact`, (* with refinement configured, the number of points an epoch runs over is the number of ACTIVE points,
+   Only statements, `exact`, Print Assumptions and non-vacuity examples live here. *)
+From Coq Require Import ZArith List Bool Lia ZifyBool Permutation.
+From JV Require Import Kit.Tac Gen.G_datagen Model.M_datagen Inst.I_datagen Proofs.P_datagen.
+Import ListNotations.
+Open Scope Z_scope.
+
+(* with refinement configured, the number of points an epoch runs over is the number of ACTIVE points,
    n_start + (steps made) * (points added per step) -- not the store size, not the candidates drawn per step *)
 Lemma regenerated_refined_epoch_length_ok n_start steps sel cand :
   gen_neff_rar_ode_t n_start steps sel cand = n_start + steps * sel /\
@@ -8,11 +14,6 @@ Lemma regenerated_refined_epoch_length_ok n_start steps sel cand :
 Proof. unfold gen_neff_rar_ode_t, gen_neff_rar_omega, gen_neff_rar_pde_t. repeat split; lia. Qed.
 
 Print Assumptions regenerated_refined_epoch_length_ok.
-Print Assumptions and non-vacuity examples live here. *)
-From Coq Require Import ZArith List Bool Lia ZifyBool Permutation.
-From JV Require Import Kit.Tac Gen.G_datagen Model.M_datagen Inst.I_datagen Proofs.P_datagen.
-Import ListNotations.
-Open Scope Z_scope.
 
 (* Proof obligation on the REGENERATED source expressions: for each of the six generator
    kinds the test, the updates, the initial cursor and the wiring are what the theorems need. *)
